@@ -175,6 +175,8 @@ const WORDS: &[&str] = &[
 
 const HOSTILE_WORDS: &[&str] = &[
     "\"quoted\"", "it's", "caf\u{e9}", "\u{65e5}\u{672c}", "\u{1f642}", "ctl\u{1}x", "del\u{7f}x", "ls\u{2028}x", "semi;colon", "a&b", "100%", "e\u{301}", "\u{10ffd}",
+    // ends of the UTF-8 length classes and lead-byte ranges, next to ASCII and next to each other
+    "\u{7ff}x", "\u{7c0}\u{7ff}", "\u{800}y", "\u{d7ff}\u{e000}", "\u{ff0c}z", "\u{fffd}\u{ff0c}w", "\u{f8ff}", "\u{10000}v", "\u{10ffff}\u{80}",
 ];
 
 pub fn generate(cfg: &GenCfg, rng: &mut Rng) -> (Program, Meta) {
